@@ -34,7 +34,7 @@ PROP = dict(
     design_ref="DESIGN.md 4.15",
     driver="c15",
     trace=dict(module="TraceCodecs", cfg="TraceCodecs.cfg"),
-    rule="case = one codec call: (consume) reader script x reader kind x ClosesStream x destination kind x pre-population x "
+    rule="case = one codec call: (consume) reader script x reader kind (plain, closable, the body runtime.HasBody leaves in a request) x ClosesStream x destination kind x pre-population x "
          "writer limit / unmarshal error; (produce) source kind x delivery script x writer kind x writer limit x ClosesStream x "
          "marshal error; (seq) a history of 2..3 (seeded: up to 12) ByteStreamConsumer calls - reader a scripted stream, *bytes.Buffer, *bytes.Reader or "
          "*strings.Reader -, caller-side changes of stored []byte values and re-use of the sources afterwards, all "
